@@ -36,6 +36,12 @@ Lemma gen_send_holds_send_mutex :
   forallb (call_under_lock false false) Gen.send_paths = true /\ Gen.send_paths <> [].
 Proof. split; [vm_compute; reflexivity|discriminate]. Qed.
 
+(* the EHLO keywords the code consults (Extension("...") calls, ext["..."] lookups): the five the model knows, and AUTH
+   (only with SMTP AUTH configured - not in this model).  Any other keyword is EOther: inert (SmtpSendInertProofs.v) *)
+Lemma gen_consulted_extensions :
+  Gen.consulted_extensions = [bs "8BITMIME"; bs "AUTH"; bs "DSN"; bs "ENHANCEDSTATUSCODES"; bs "SMTPUTF8"; bs "STARTTLS"].
+Proof. vm_compute. reflexivity. Qed.
+
 (* smtp.go dataCloser.Close reads the whole (possibly multi-line) reply: one reply per command in the model's queue *)
 Lemma gen_eod_reads_full_response : Gen.eod_reads_full_response = true.
 Proof. reflexivity. Qed.
